@@ -93,7 +93,9 @@ def make_frame(shape, border, perm):
         if border == "low":
             im[i, j] = -1.0 - k
         else:  # mixed: every other border pixel sits between two interior levels (distinct everywhere)
-            im[i, j] = (-1.0 - k) if k % 2 == 0 else 10.0 * (1 + (k * 7) % (n_int + 1)) + 5.0 + 0.01 * k
+            # the high border pixels run through all the interior levels in turn (so that ascents do end on the border, on
+            # every side of the frame)
+            im[i, j] = (-1.0 - k) if k % 2 == 0 else 10.0 * (1 + ((k + 1) // 2) % (n_int + 1)) + 5.0 + 0.01 * k
     im[1:-1, 1:-1] = (10.0 * (np.asarray(perm, np.float32) + 1)).reshape(d0 - 2, d1 - 2)
     return im
 
